@@ -26,7 +26,8 @@ open Tup
 
 /-- `Spec.Term.feed` with the two corrections measured against tmux 3.3a that the shared file does
     not have yet (see the C16 report): VPA keeps the pending-wrap column; restoring a saved cursor
-    (`CSI u`, `ESC 8`) clamps the column to the last one. -/
+    (`CSI u`, `ESC 8`) clamps the column to the last one; BS from the pending-wrap position counts
+    like CUB 1 (from column `w` when `cubFromW`). -/
 def Term.feedP (t : Term) : Tok → Term
   | .csi ps 100 => { t with cy := min (p1 ps - 1) (t.h - 1) }
   | .csi _ 117 =>
@@ -36,6 +37,7 @@ def Term.feedP (t : Term) : Tok → Term
   | .esc 56 => match t.saved with
     | some (x, y, s) => { t with cx := min x (t.w - 1), cy := y, sgr := s }
     | none => { t with cx := 0, cy := 0 }
+  | .c0 8 => { t with cx := (if t.cfg.cubFromW then t.cx else min t.cx (t.w - 1)) - 1 }
   | tok => t.feed tok
 
 end Tup.Spec
